@@ -49,7 +49,9 @@ func getProfile(name string) *Profile {
 	case "mixed":
 		return &Profile{Name: name, Horizon: [2]int{120, 400}, W: cloneW(baseWeights, nil), AdvRate: 0.1, Silence: 0.15, DropRate: 0.03, DupRate: 0.03, TmoMax: 25}
 	case "long":
-		return &Profile{Name: name, Horizon: [2]int{3800, 9000}, Long: true, W: cloneW(baseWeights, map[string]float64{"renew": 8, "migrate": 4, "store_new": 8}), AdvRate: 0.03, Silence: 0.1, TmoMax: 40}
+		return &Profile{Name: name, Horizon: [2]int{3700, 5600}, Long: true, W: cloneW(baseWeights, map[string]float64{"renew": 8, "migrate": 4, "store_new": 8}), AdvRate: 0.03, Silence: 0.1, TmoMax: 40}
+	case "longer":
+		return &Profile{Name: name, Horizon: [2]int{7300, 12500}, Long: true, W: cloneW(baseWeights, map[string]float64{"renew": 8, "migrate": 4, "store_new": 8}), AdvRate: 0.03, Silence: 0.1, TmoMax: 40}
 	case "timeout":
 		return &Profile{Name: name, Horizon: [2]int{150, 500}, W: cloneW(baseWeights, map[string]float64{"store_new": 14, "store_update": 8, "complete": 14, "renew": 1, "terminate": 1, "cancel": 3}), AdvRate: 0.03, Silence: 0.5, TmoMax: 12}
 	case "staking":
